@@ -28,6 +28,7 @@ func main() {
 	repo := flag.String("repo", envOr("DFS_REPO", "/repo"), "repository to analyse")
 	verif := flag.String("verif", envOr("DFS_VERIF", ""), "verif directory (default: parent of the binary's directory)")
 	list := flag.Bool("list", false, "list properties")
+	dump := flag.String("codecdump", "", "debug: pkg:recv:name of a function to print its extracted byte layout")
 	flag.Parse()
 	if *list {
 		var ids []string
@@ -36,6 +37,48 @@ func main() {
 		}
 		sort.Strings(ids)
 		fmt.Println(strings.Join(ids, "\n"))
+		return
+	}
+	if *dump != "" {
+		w := loadWorld(*repo)
+		parts := strings.Split(*dump, ":")
+		fn := w.codecFn(parts[0], parts[1], parts[2])
+		if fn == nil {
+			fmt.Println("not found")
+			os.Exit(2)
+		}
+		res := evalCodec(w, fn)
+		fmt.Printf("%s: %d output buffers, %d facts, %d non-constant windows\n", fnName(fn), len(res.out), len(res.facts), res.unknownW)
+		for _, b := range res.out {
+			var ps []int
+			for p := range b.cells {
+				ps = append(ps, p)
+			}
+			sort.Ints(ps)
+			for _, p := range ps {
+				var xs []string
+				for _, v := range b.cells[p] {
+					xs = append(xs, v.String())
+				}
+				fmt.Printf("  out[%d] = %s\n", p, strings.Join(xs, " | "))
+			}
+		}
+		sort.Slice(res.facts, func(i, j int) bool { return res.facts[i].pos < res.facts[j].pos })
+		for _, f := range res.facts {
+			fmt.Printf("  in[%d] -> %s.%d\n", f.pos, f.f.Name(), f.sig)
+		}
+		return
+	}
+	if os.Getenv("DFS_CODEC_ALL") != "" {
+		w := loadWorld(*repo)
+		r := newReport("CODEC", "quick")
+		all := map[string][]codecPair{"C02": codecPairsC02, "C05": codecPairsC05, "C06": codecPairsC06, "C07": codecPairsC07, "C08": codecPairsC08, "C19": codecPairsC19}
+		for _, id := range []string{"C02", "C05", "C06", "C07", "C08", "C19"} {
+			runCodecFamily(w, r, id+"-codec", all[id])
+		}
+		for _, o := range r.Obls {
+			fmt.Printf("%-9s %-12s %s | %s | %s\n", o.Status, o.Rule, o.Function, o.Construct, o.Detail)
+		}
 		return
 	}
 	if *verif == "" {
